@@ -262,3 +262,29 @@ def include_own_scanners(cx, facts, rep, needles, floor=8):
             k += 1
     rep.counts['SCAN'] = rep.counts.get('SCAN', 0) + k
     rep.floor('SCAN', floor)
+
+
+def include_own_parsers(cx, facts, rep, needles):
+    """the summaries take `field_attribute.ignore / method / rank / name / expression ..` at face value: re-evaluate, for this trait's
+    own parameter parsers, the PARAM / FLAGS rules (each documented parameter is parsed by its arm, converted by the right helper,
+    stored in its own field, accepted exactly where documented) and the HELP tables of the shared value helpers"""
+    from ..report import Report as _R
+    from . import c13_param
+    from .c14 import check_help
+    sub = _R(rep.prop)
+    c13_param.check(cx, facts, sub)
+    check_help(cx, sub)
+    k = {}
+    for fnd in sub.findings:
+        if fnd.rule in ('PARAM', 'FLAGS') and any(n in fnd.where for n in needles) or fnd.rule == 'HELP':
+            if not any(x.key == fnd.key for x in rep.findings):
+                rep.findings.append(fnd)
+    for r, i, v in sub.checked:
+        if r in ('PARAM', 'FLAGS') and any(n in i for n in needles) or r == 'HELP':
+            rep.checked.append((r, i, v))
+            k[r] = k.get(r, 0) + 1
+    for r, n in k.items():
+        rep.counts[r] = rep.counts.get(r, 0) + n
+    for b in sub.broken:
+        if b not in rep.broken and 'floor' not in b:
+            rep.broken.append(b)
